@@ -12,7 +12,7 @@ CHECKS = {
    text="After each generated history (syncs/checkpoints/snapshots/compactions while an application transaction with spilled uncommitted frames is open; live writer goroutine against monitor-driven litestream; checkpoint-then-snapshot stress) every TXID listed at any level is restored and must be exactly one committed application state, monotone in n, level 0 gapless from 1. Workload F adds local disk-full episodes around litestream operations (directed: everything copied, disk full, litestream checkpoint of each mode, space again, commits, Snapshot before the next sync). Held on the executions produced.",
    note="sha256 of the logical dump identifies a committed state; concurrent runs are real goroutine schedules (not enumerated); C12 applies the same oracle under the race detector", ref="§4 C02"),
  "C04": dict(level="exploration", engine="E-HIST", technique="runtime monitoring: differential byte oracle at the first acknowledgement after generated disturbances (stop/start, restart, offline activity, db replacement, meta loss/reset)",
-   text="Histories = prefix + disturbance(s) from the cross product named by the property + suffix; the first acknowledged sync after each disturbance must restore byte-for-byte to the source, a successful sync must leave the replica at the database position, and level-0 files at or below the previous replica maximum must never be replaced. Disturbances also include a data-directory rollback (database, WAL and meta directory together) and a rollback of the database file with its WAL while the meta directory stays. Held on the histories explored.",
+   text="Histories = prefix + disturbance(s) from the cross product named by the property + suffix; the first acknowledged sync after each disturbance must restore byte-for-byte to the source, a successful sync must leave the replica at the database position, and level-0 files at or below the previous replica maximum must never be replaced. Disturbances also include a data-directory rollback (database, WAL and meta directory together) and a rollback of the database file with its WAL while the meta directory stays (arbitrary, frame-aligned and identical-prefix shapes), and offline rounds in which the application restarts the WAL several times. Pinned demonstrations for F36 (known finding: byte-identical page image at the cursor after such a rollback) and F37 (WAL restarted more than once, fixed). Held on the histories explored.",
    note="the application is the only writer while litestream is down; file replica only", ref="§4 C04"),
  "C06": dict(level="exploration", engine="E-HIST", technique="runtime monitoring: independent re-composition of archived level-0 files compared with every compacted/snapshot file and with Restore(TXID=n)",
    text="Every file at level>=1 produced in generated histories (1..8 level layouts, DB.Compact and Store.CompactDB, shrinking databases, in-chain full snapshots) is decoded and compared page-for-page, Commit and timestamp with the overlay of the archived level-0 files of its range; levels must be contiguous; Restore(TXID=n) must equal image_n before and after each compaction. Histories include process restarts (plain and of the whole Store) between compactions, and pinned histories in which the application checkpoints while litestream is closed or while its first sync after reopening fails (disk full, or only the first chunks of a chunked catch-up fit), followed by a Snapshot; a litestream checkpoint issued with a request-scoped context that is cancelled after the call; a snapshot stream read across a concurrent Close.",
@@ -24,7 +24,7 @@ CHECKS = {
    text="Generated write/sync histories over the threshold lattice; after every successful sync with nothing pinned SQLite's mxFrame must be <= the lowest configured threshold; 10 idle syncs may create at most 6 files and none in syncs 7..10. Fault histories add syncs that fail because the local staging area is full and snapshot uploads that break partway; after the fault the next successful sync has to restore the bound (a blocked checkpoint shows up as a deadlocked process).",
    note="frames counted up to the last valid commit frame of the current WAL generation", ref="§4 C13"),
  "C19": dict(level="exploration", engine="E-GEN", technique="runtime monitoring: generated v0.3.x layouts restored by the real code and compared with a reference recomputed by real SQLite from the generator's records",
-   text="Legacy layouts generated from real SQLite histories (several generations, snapshots at several indices, WAL files split at arbitrary offsets, any one segment or index removed, all planted times, mixed with current-format replicas); the restored bytes must equal the state computed independently from the generator's records, gaps must produce errors, format arbitration must pick the more recent eligible backup (layouts: legacy entirely older, current format entirely older, current-format files between the newest legacy snapshot and later legacy WAL segments).",
+   text="Legacy layouts generated from real SQLite histories (several generations, snapshots at several indices, WAL files split at arbitrary offsets, any one segment or index removed, all planted times, mixed with current-format replicas); the restored bytes must equal the state computed independently from the generator's records, gaps must produce errors, format arbitration must pick the more recent eligible backup (layouts: legacy entirely older, current format entirely older, current-format files between the newest legacy snapshot and later legacy WAL segments). One transient failure of each v0.3.x listing call during a latest restore (plain error, and identical bytes delivered together with an error) must yield either the fault-free result or an error.",
    note="removal of the last segment of a non-final index is undetectable from a 0.3.x listing and is only counted; planted mtimes", ref="§4 C19"),
  "C07": dict(level="exploration", engine="E-HIST", technique="runtime monitoring: invariants + differential restore after every retention pass of generated histories with planted file ages",
    text="Generated histories over {write, sync, compact, snapshot, all retention entry points (DB, Store, stand-alone Compactor), RetentionEnabled on/off} with file ages planted around the thresholds in arbitrary orders; after every pass the latest restore must equal the level-0 image, a snapshot must survive once one exists, surviving L0 files must be one contiguous run ending at the newest, and replication must continue.",
@@ -45,7 +45,7 @@ CHECKS = {
    text="N goroutines draw from the daemon's whole operation set (incl. the control socket) against one Store with live application writers, monitors at millisecond intervals and delays injected inside storage calls; zero race reports with a litestream frame, no stuck operation, no leaked read lock or descriptor after Close/Unregister, exactly one instance per path (porcupine), and afterwards the final acknowledgement restores to the source, every TXID is a consistent committed state and every level-9 file equals the level-0 image of its TXID. Acknowledgements observed while the writers run (SyncAndWait, Store.SyncDB(wait), POST /sync wait) are checked afterwards: every commit that had returned before the call must be in the replica as published when the call returned. The writers also checkpoint from the application side; the source itself must end with every returned commit and pass integrity_check. A registration storm (16 concurrent registrations of one path under registry-lock contention, repeated) follows each run. Restore(latest) calls run concurrently with everything else and are judged afterwards (success must be a committed state, a failure must leave nothing at the output path); the final source must have an empty _litestream_lock table; every third stress case injects storage faults (failing listings, downloads and uploads) on top of the delays.",
    note="real goroutine schedules, not enumerated; runs are sized by completed calls with a wall-clock cap; restores per run are capped and the cap is stated in the evidence", ref="§4 C12"),
  "C16": dict(level="fault_enumeration", engine="E-CRASH", technique="runtime monitoring under process kills: ptrace supervisor kills the follower before each fs-mutating syscall; byte comparison with an ordinary restore at quiescence; sidecar monotonicity",
-   text="A follower process (Restore with Follow) is driven poll by poll against staged primary histories with compaction, snapshots and retention; it is killed before every file-system-mutating syscall of its apply/sidecar cycles (and in the window between publishing the database and its first sidecar), restarted, and must converge byte-for-byte (masked header bytes) to Restore(TXID=replica max) without its sidecar ever regressing; graceful stop/restart histories run alongside, including one with a database larger than 4 GiB (64 KiB pages) whose followed transactions touch pages above the 4 GiB mark.",
+   text="A follower process (Restore with Follow) is driven poll by poll against staged primary histories with compaction, snapshots and retention; it is killed before every file-system-mutating syscall of its apply/sidecar cycles (and in the window between publishing the database and its first sidecar), restarted, and must converge byte-for-byte (masked header bytes) to Restore(TXID=replica max) without its sidecar ever regressing; graceful stop/restart histories run alongside (a restart is inside the property whenever every TXID above the sidecar is still covered by levels 0..8, also when the sidecar lies below the oldest level-9 snapshot), including one with a database larger than 4 GiB (64 KiB pages) whose followed transactions touch pages above the 4 GiB mark.",
    note="SIGKILL of the process (page cache survives); poll cycles are counted logically through a counting ReplicaClient proxy in the victim; wall-clock limits only produce inconclusive", ref="§4 C16"),
  "C03": dict(level="fault_enumeration", engine="E-CRASH", technique="runtime monitoring under process kills: ptrace supervisor kills the litestream process immediately before the Nth file-system-mutating syscall; post-kill file verification, restore of the last acknowledged TXID, restart and differential ack",
    text="Scripted victim scenarios (sync/upload with checkpoints, compaction + snapshot, retention, restore, baseline fetch after meta loss, data-dir rollback, follow mode; the real litestream binary in the thorough tier) are killed before every (quick: every point of two scenarios plus boundaries and a PRNG sample of the others) fs-mutating syscall; afterwards every *.ltx under a final name must verify, restore outputs and sidecars must be complete, the last acknowledged TXID must restore to the image recorded at its acknowledgement, and a restarted victim must acknowledge a new sync that restores to the source.",
@@ -57,13 +57,13 @@ CHECKS = {
    text="The C03 victim scenarios (plus variants where nothing else is published in the same call) are traced with strace; for every rename to a published name the source must have been fsynced after its last modification (R1) and the directory fsynced before success is reported (R2); for every unlink the set of durably stored files minus the victim must still contain a valid restore chain to the highest acknowledged TXID (R3). T5 traces the v0.3.x restore path (snapshot-only and snapshot+WAL); T6 makes every fsync of the restoring process fail with EIO (strace fault injection): a failed fsync is not a flush; T7 restores to an output path without a directory component (the checker follows chdir).",
    note="checks that the calls are issued in a safe order, not that kernel/disk honour them", ref="§4 C11"),
  "C14": dict(level="exploration", engine="E-HIST", technique="runtime monitoring: differential replay of identical deterministic application histories with and without litestream; logical dump, bookkeeping tables, integrity and journal mode compared",
-   text="The same seeded application history runs twice (control without litestream; treatment with syncs, checkpoints in all modes, snapshots, compactions, Close/Open inserted at PRNG-chosen points, also inside open application transactions); schema and rows of every non-litestream object, user_version, integrity_check, journal_mode must be equal and _litestream_lock must be empty at every quiescent point. Added: local disk-full episodes around litestream operations; an application statement that stays SQLITE_BUSY with no litestream call in flight is a violation; a cross-process scenario (application here, litestream in a process of its own) in which the application closes its last connection around every litestream operation, a third process asks the kernel (F_GETLK) who holds SQLite's shared lock on the database file, and the ledger is checked after reconnecting; databases the application created in rollback-journal mode (litestream switches them to WAL at its first sync; they must still be in WAL mode after litestream closed with the application gone).",
+   text="The same seeded application history runs twice (control without litestream; treatment with syncs, checkpoints in all modes, snapshots, compactions, Close/Open inserted at PRNG-chosen points, also inside open application transactions, and as calls started inside an open application write transaction that are still in flight when the application commits); schema and rows of every non-litestream object, user_version, integrity_check, journal_mode must be equal and _litestream_lock must be empty at every quiescent point. Added: local disk-full episodes around litestream operations; an application statement that stays SQLITE_BUSY with no litestream call in flight is a violation; a cross-process scenario (application here, litestream in a process of its own) in which the application closes its last connection around every litestream operation, a third process asks the kernel (F_GETLK) who holds SQLite's shared lock on the database file, and the ledger is checked after reconnecting; databases the application created in rollback-journal mode (litestream switches them to WAL at its first sync; they must still be in WAL mode after litestream closed with the application gone).",
    note="application statements that hit SQLITE_BUSY in the treatment are retried so both runs commit the same transactions", ref="§4 C14"),
  "C17": dict(level="exploration", engine="E-HIST", technique="runtime monitoring: >1 GiB databases replicated and restored; every LTX file stream-scanned for the lock page, restored file stream-compared with the source",
-   text="Databases just below 1 GiB are grown across / up to / beyond SQLite's lock page within one sync, then snapshotted, compacted and restored; no LTX file may contain the lock page, every other page must restore exactly, the lock page must be zero.",
-   note="quick tier uses page size 65536 only (three placements); thorough covers all eight page sizes", ref="§4 C17"),
+   text="Databases just below 1 GiB are grown across / up to / beyond SQLite's lock page within one sync (and shrunk back so that they end exactly one page behind the lock page when full copies are taken from the database file), then snapshotted, compacted and restored; no LTX file may contain the lock page, every other page must restore exactly, the lock page must be zero.",
+   note="quick tier uses page size 65536 only (four placements); thorough covers all eight page sizes", ref="§4 C17"),
  "C18": dict(level="exploration", engine="E-HIST", technique="runtime monitoring: every page and the file size served by a VFSFile compared with the level-0 image of its position at open and after deterministic poll points; SQL-level dump through a real SQLite connection on the registered VFS",
-   text="Primary histories (growth, auto_vacuum/incremental shrink, VACUUM, compaction, level-0 retention of files being read) with a VFS file opened on the same replica; after open and after each hook-driven poll (also under a SHARED lock, and in time-travel mode) FileSize and every page read through ReadAt must equal the level-0 image of VFSFile.Pos() (masking only header bytes the VFS rewrites); time travel must equal the timestamp restore; a quarter of the histories also compare a logical dump through mattn SQLite on the registered VFS. A third of the histories run with hydration enabled (temporary and persistent hydration files; hydration held in flight or completed, observed through the VFS's log handler); SetTargetTime/ResetTime are also issued under a SHARED lock with staged poll updates.",
+   text="Primary histories (growth, auto_vacuum/incremental shrink, VACUUM, compaction, level-0 retention of files being read) with a VFS file opened on the same replica; after open and after each hook-driven poll (also under a SHARED lock, and in time-travel mode) FileSize and every page read through ReadAt must equal the level-0 image of VFSFile.Pos() (masking only header bytes the VFS rewrites); time travel must equal the timestamp restore; a quarter of the histories also compare a logical dump through mattn SQLite on the registered VFS. A third of the histories run with hydration enabled (temporary and persistent hydration files; hydration held in flight or completed, observed through the VFS's log handler); SetTargetTime/ResetTime are also issued under a SHARED lock with staged poll updates; a hydration catch-up that runs 60 rounds without completing while the replica no longer changes is reported as non-convergence (logical count, no clock).",
    note="needs the vfs build variant (cgo); the VFS write path is not covered", ref="§4 C18"),
 }
 
